@@ -8,6 +8,7 @@ import WinterProofs.Lemmas.C10Paths
 import WinterProofs.Lemmas.C10PathsHonest
 import WinterProofs.Lemmas.C10Ser
 import WinterProofs.Lemmas.C10Refine
+import WinterProofs.Lemmas.C10Recompress
 
 namespace WinterProofs.C10
 open Model.Merkle
@@ -184,19 +185,56 @@ theorem paths_decompress (H : Hasher D) (leaves : List D) (d : Nat)
       ∀ j (hj : j < idxs.length), prove (treeOf H leaves) idxs[j] = .ok (paths.getD j []) :=
   intoPaths_honest_wf H _ d (tree_wf H leaves d hd1 hl) hd2 idxs hne hlen hnd hr
 
-/-- Re-compression, stated at full strength (NOT proved; exercised exhaustively for all trees of
-    2..16 leaves, all position subsets and orders by the correspondence harness, and on the concrete
-    opening below): the single paths of a position list re-compress (`from_paths`) to the opening
-    `prove_batch` produces.  With `paths_decompress` this is the round trip
-    `from_paths ∘ into_paths = id` on the openings of the tree; by `batch_unique` it would follow from
-    "`get_root` accepts the output of `from_paths`".  (False on the pinned tree for unsorted position
-    lists; repaired by 725da49.) -/
+/-- Re-compression (proved below as `paths_recompress`): the single paths of a position list
+    re-compress (`from_paths`) to the opening `prove_batch` produces, in any order of the position
+    list (duplicates are a documented panic of `from_paths` and excluded).  (False on the pinned
+    tree for unsorted position lists; repaired by 725da49.) -/
 def PathsRecompress (H : Hasher D) : Prop :=
   ∀ (leaves : List D) (d : Nat), 1 ≤ d → d ≤ 63 → leaves.length = 2 ^ d →
   ∀ (idxs : List Nat), idxs ≠ [] → idxs.length ≤ 255 → idxs.Nodup → (∀ i ∈ idxs, i < 2 ^ d) →
   ∀ (paths : List (List D)), paths.length = idxs.length →
     (∀ j (hj : j < idxs.length), prove (treeOf H leaves) idxs[j] = .ok (paths.getD j [])) →
     fromPaths H paths idxs = proveBatch H (treeOf H leaves) idxs
+
+theorem paths_recompress (H : Hasher D) : PathsRecompress H := by
+  intro leaves d hd1 hd2 hl idxs hne hlen hnd hr paths hpl hpaths
+  exact fromPaths_honest_wf H _ d (tree_wf H leaves d hd1 hl) hd2 idxs hne hlen hnd hr paths hpl hpaths
+
+/-- Round trip: decompressing the opening the tree produces and re-compressing the paths gives the
+    same opening — `from_paths ∘ into_paths` is the identity on the openings of the tree, for every
+    tree of depth 1..63 and every non-empty duplicate-free in-range position list in any order. -/
+theorem paths_roundtrip (H : Hasher D) (leaves : List D) (d : Nat)
+    (hd1 : 1 ≤ d) (hd2 : d ≤ 63) (hl : leaves.length = 2 ^ d) (idxs : List Nat) (hne : idxs ≠ [])
+    (hlen : idxs.length ≤ 255) (hnd : idxs.Nodup) (hr : ∀ i ∈ idxs, i < 2 ^ d) :
+    ∃ p paths, proveBatch H (treeOf H leaves) idxs = .ok p ∧ intoPaths H p idxs = .ok paths ∧
+      fromPaths H paths idxs = .ok p := by
+  obtain ⟨p, paths, h1, h2, h3, h4⟩ := paths_decompress H leaves d hd1 hd2 hl idxs hne hlen hnd hr
+  refine ⟨p, paths, h1, h2, ?_⟩
+  rw [paths_recompress H leaves d hd1 hd2 hl idxs hne hlen hnd hr paths h3 h4, h1]
+
+/-- The other round trip: the single paths of a position list, re-compressed by `from_paths` and
+    decompressed by `into_paths`, are returned unchanged and in the same order. -/
+theorem paths_roundtrip_conv (H : Hasher D) (leaves : List D) (d : Nat)
+    (hd1 : 1 ≤ d) (hd2 : d ≤ 63) (hl : leaves.length = 2 ^ d) (idxs : List Nat) (hne : idxs ≠ [])
+    (hlen : idxs.length ≤ 255) (hnd : idxs.Nodup) (hr : ∀ i ∈ idxs, i < 2 ^ d)
+    (paths : List (List D)) (hpl : paths.length = idxs.length)
+    (hpaths : ∀ j (hj : j < idxs.length), prove (treeOf H leaves) idxs[j] = .ok (paths.getD j [])) :
+    ∃ p, fromPaths H paths idxs = .ok p ∧ intoPaths H p idxs = .ok paths := by
+  obtain ⟨p, paths', h1, h2, h3, h4⟩ := paths_decompress H leaves d hd1 hd2 hl idxs hne hlen hnd hr
+  refine ⟨p, by rw [paths_recompress H leaves d hd1 hd2 hl idxs hne hlen hnd hr paths hpl hpaths, h1], ?_⟩
+  have : paths' = paths := by
+    apply List.ext_getElem?
+    intro j
+    by_cases hj : j < idxs.length
+    · have e1 := h4 j hj
+      rw [hpaths j hj] at e1
+      injection e1 with e1
+      rw [List.getD_eq_getElem?_getD, List.getD_eq_getElem?_getD, List.getElem?_eq_getElem (by omega),
+        List.getElem?_eq_getElem (by omega)] at e1
+      rw [List.getElem?_eq_getElem (by omega), List.getElem?_eq_getElem (by omega)]
+      simpa using e1.symm
+    · rw [List.getElem?_eq_none (by omega), List.getElem?_eq_none (by omega)]
+  rw [← this]; exact h2
 
 /-! ## Serialization of the node rows (`serialize_nodes`, `deserialize`) -/
 
@@ -320,6 +358,8 @@ example := single_binding exH exH_inj exLeaves 3 (by decide) (by decide) (by dec
 example := batch_complete exH exLeaves 3 (by decide) (by decide) (by decide) [6, 1, 3] (by decide) (by decide)
   (by decide) (by decide)
 example := paths_decompress exH exLeaves 3 (by decide) (by decide) (by decide) [6, 1, 3] (by decide) (by decide)
+  (by decide) (by decide)
+example := paths_roundtrip exH exLeaves 3 (by decide) (by decide) (by decide) [6, 1, 3] (by decide) (by decide)
   (by decide) (by decide)
 example := batch_binding exH exH_inj exLeaves 3 (by decide) (by decide) exRoot (by decide) exBatch rfl [6, 1, 3]
   (by decide)
